@@ -3,10 +3,22 @@
   (`treeToWbxml` writes `Spec.ser d`) and C04 (`parse (ser d)` delivers `Spec.events d`).
 
   `RT` at tree level is `treeOfWbxml main fuel forced meta (treeToWbxml cfg t)`.
-  Proved here: the round trip keeps the language and announces UTF-8 (`rt_header`, every tree);
-  for outputs without OPAQUE token the round-trip tree is the tree the builder makes of the
-  SPECIFICATION's reading of the document the encoder wrote (`rt_is_spec_tree_partial`).
-  Not proved: `rt_preserves` (`RT cfg t = norm cfg t`) — see the note at the end.
+  Proved here:
+    * the round trip keeps the language and announces UTF-8 (`rt_header`, every tree);
+    * for outputs without OPAQUE token the round-trip tree is the tree the builder makes of the
+      SPECIFICATION's reading of the document the encoder wrote (`rt_is_spec_tree_partial`);
+    * the builder over the specification's events reconstructs the tree read off the grammar value
+      (`build_reconstructs`, every item kind, no element called `Data`);
+    * TREE level: `rt_preserves_partial` — for plain trees of plain languages `RT cfg t` is the
+      explicit normalisation `normNode` of `t`, up to `canon` (token vs literal representation of
+      names); `norm_idempotent`, `norm_idempotent_merged` (+ two counterexamples showing the
+      hypotheses are needed);
+    * SECOND trip, Expat as a parameter (`ReadsBack`): `printed_is_render_partial`,
+      `xml_read_back_partial`, `rt2_tree_partial`, `rt_same_norm_partial`, `rt2_is_rt1_partial`
+      (converting twice = converting once at tree and event level), and the witnesses
+      `rt2_bytes_differ_hollow` / `rt2_bytes_differ_adjacent_text` that octet-by-octet equality of
+      the two WBXML documents is false as it stands.
+  Not proved: see the note at the end.
 -/
 import Wbxml.Props.C06
 import Wbxml.Lemmas.EncWRt
@@ -173,7 +185,8 @@ theorem spec_tree_view (pcfg : PCfg) (d : Doc) (l : Lang) (hl : headerLang pcfg 
     which the header selects the language, for every fuel, and the tree it delivers has
 
       * the language entry the header selects and the header's character set,
-      * a root `r'` in normal form (`nfNode`) with `canon r' = normNode (dcfgOf cfg lang) r`:
+      * a root `r'` in normal form (`nfNode`) with `canon r' = normNode (dcfgOf cfg lang) r`,
+        whose view `ntoks r'` is the view of the parser's events:
 
     the round-trip tree IS the normalised source tree — same element nesting, same names, same
     attributes with the same values (C strings with the handlers' trailing NUL) in the same order
@@ -199,7 +212,8 @@ theorem rt_preserves_partial (cfg : X2WCfg) (t : Tree) (bs : Bytes) (lang : Lang
             .ok { lang := main.find? (fun x => x.id == lang.id),
                   origCharset := headerCharset (pcfgOf main forced metaCs) d.hdr, root := some r' } ∧
           r' = rootOfDoc (pcfgOf main forced metaCs) d lang ∧ nfNode r' = true ∧
-          canon r' = normNode (dcfgOf cfg lang) r := by
+          canon r' = normNode (dcfgOf cfg lang) r ∧
+          (parse (pcfgOf main forced metaCs) bs).events.flatMap toks = ntoks r' := by
   obtain ⟨d, hs, hk⟩ := C06.denotes_source_partial cfg t bs lang r hlang hroot hl hover h hpn hpl hnta hvs has hts han
   refine ⟨d, hs, ?_⟩
   intro main f forced metaCs h1 h2 h3 h4
@@ -213,7 +227,8 @@ theorem rt_preserves_partial (cfg : X2WCfg) (t : Tree) (bs : Bytes) (lang : Lang
   have hrOver : nodeOver lang r = true := by
     simp only [treeOver, hroot, Bool.and_eq_true] at hover
     exact hover.2
-  refine ⟨rootOfDoc (pcfgOf main forced metaCs) d lang, ?_, rfl, nf_nodeOfElem _ _ _, ?_⟩
+  refine ⟨rootOfDoc (pcfgOf main forced metaCs) d lang, ?_, rfl, nf_nodeOfElem _ _ _, ?_,
+    by rw [hev]; exact events_toks _ d lang h1⟩
   · rw [treeOfWbxml]
     have hp : parse { main := main, langForced := forced, metaCharset := metaCs } bs =
         parse (pcfgOf main forced metaCs) bs := rfl
@@ -233,11 +248,29 @@ theorem rt_preserves_partial (cfg : X2WCfg) (t : Tree) (bs : Bytes) (lang : Lang
     and embedded documents included — they are left alone) whose text nodes outside CDATA are
     NUL-free (`textsNulFree`: what an XML parser delivers), in every language but the three SyncML
     ones. Both hypotheses are needed, see `norm_not_idempotent_nul` and
-    `norm_not_idempotent_syncml`. -/
+    `norm_not_idempotent_syncml`; for SyncML see `norm_idempotent_merged`. -/
 theorem norm_idempotent (c : WCfg) (hs : isSyncml c.lang.id = false) (n : Node) (h : textsNulFree n = true) :
     normNode c (normNode c n) = normNode c n := normNode_idem c hs n h
 
+/-- **Idempotence in every language**, SyncML included, for trees with NUL-free text in which no
+    two text nodes are adjacent siblings (`mergedNode`: what both tree builders deliver, since
+    `wbxml_tree_add_node` merges adjacent character data). -/
+theorem norm_idempotent_merged (c : WCfg) (n : Node) (h : textsNulFree n = true) (hm : mergedNode n = true) :
+    normNode c (normNode c n) = normNode c n := normNode_idem_merged c n h hm
+
 /-! ## The second trip (Expat as a parameter) -/
+
+/-- **The text `ReadsBack` is about.** `wbxml_tree_to_xml` in compact or canonical mode, for a plain
+    tree of a language without namespace table (not SyncML, no binary-flagged element name),
+    writes the XML header followed by `renderNode` of the root: `<name` + ` attr="escaped value"`…
+    + `/>` for an element without children, otherwise `>` children `</name>`; escaped
+    `printedText` for a text node; nothing else. `xmlEventsOf` is what XML 1.0 (and namespace
+    processing of the reserved `xml:` prefix) makes a conforming reader report for that text. -/
+theorem printed_is_render_partial (cfg : W2XCfg) (fuel : Nat) (t : Tree) (lang : Lang) (r : Node) (xml : Bytes)
+    (hlang : t.lang = some lang) (hroot : t.root = some r) (hg : cfg.gen ≠ 1) (hns : lang.ns = none)
+    (hs : isSyncml lang.id = false) (hp : plainNode r = true) (hnb : noBinaryNames r = true)
+    (h : treeToXml cfg fuel t = .ok xml) : xml = xmlHeader lang cfg.gen ++ renderNode (xcfgOf cfg lang) r :=
+  treeToXml_render cfg fuel t lang r xml hlang hroot hg hns hs hp hnb h
 
 /-- **Reading the printed tree back** (`_partial`: plain trees in normal form, languages without
     namespace table, compact or canonical generation — the scope of `ReadsDoc`).
@@ -303,7 +336,7 @@ theorem rt2_tree_partial (cfg : X2WCfg) (t : Tree) (bs : Bytes) (lang : Lang) (r
   obtain ⟨d, hs, hk⟩ := rt_preserves_partial cfg t bs lang r hlang hroot hl hover h hpn hpl hnta hvs has hts han hnd
   refine ⟨d, hs, ?_⟩
   intro main f forced metaCs h1 h2 h3 h4
-  obtain ⟨r', ht', hr', hnf, hcanon⟩ := hk main f forced metaCs h1 h2 h3 h4
+  obtain ⟨r', ht', hr', hnf, hcanon, _⟩ := hk main f forced metaCs h1 h2 h3 h4
   refine ⟨_, r', ht', rfl, hcanon, ?_⟩
   intro xcfg fuel k xml env hdt hf hre har hx hrb
   have hre' : readable r' = true := by rw [← readable_canon, hcanon]; exact hre
@@ -315,6 +348,121 @@ theorem rt2_tree_partial (cfg : X2WCfg) (t : Tree) (bs : Bytes) (lang : Lang) (r
     rw [← normNode_canon, hcanon]
     exact normNode_idem _ (by rw [dcfgOf_lang]; exact hsy) r hnul
   exact ⟨r'', hx'', hn, hn.trans hidem, by rw [hn, hidem, hcanon]⟩
+
+/-- **Trees with the same normal form have the same round trip.** Two plain trees of one language
+    (table hypotheses `rtLangOk` = those of `rt_preserves_partial`) whose normalisations agree are
+    encoded to documents whose event views agree and whose round-trip trees agree up to `canon`,
+    whatever the two encodings look like octet by octet (text split differently, different string
+    tables, empty content written or not). -/
+theorem rt_same_norm_partial (cfg : X2WCfg) (lang : Lang) (hlk : rtLangOk lang = true)
+    (t1 t2 : Tree) (r1 r2 : Node) (bs1 bs2 : Bytes)
+    (hlang1 : t1.lang = some lang) (hroot1 : t1.root = some r1) (hover1 : treeOver lang t1 = true)
+    (h1 : treeToWbxml cfg t1 = .ok bs1) (hpn1 : plainNode r1 = true) (hnd1 : noDataNode r1 = true)
+    (hlang2 : t2.lang = some lang) (hroot2 : t2.root = some r2) (hover2 : treeOver lang t2 = true)
+    (h2 : treeToWbxml cfg t2 = .ok bs2) (hpn2 : plainNode r2 = true) (hnd2 : noDataNode r2 = true)
+    (hN : normNode (dcfgOf cfg lang) r1 = normNode (dcfgOf cfg lang) r2) :
+    ∃ d1 d2 : Doc, bs1 = Spec.ser d1 ∧ bs2 = Spec.ser d2 ∧
+      ∀ (main : List Lang) (f1 forced1 meta1 f2 forced2 meta2 : Nat),
+        headerLang (pcfgOf main forced1 meta1) d1.hdr = some lang →
+        (headerCharset (pcfgOf main forced1 meta1) d1.hdr = 3 ∨ headerCharset (pcfgOf main forced1 meta1) d1.hdr = 106) →
+        headerLang (pcfgOf main forced2 meta2) d2.hdr = some lang →
+        (headerCharset (pcfgOf main forced2 meta2) d2.hdr = 3 ∨ headerCharset (pcfgOf main forced2 meta2) d2.hdr = 106) →
+        cfg.version < 256 → bs1.length < 4294967296 → bs2.length < 4294967296 →
+        (parse (pcfgOf main forced1 meta1) bs1).events.flatMap toks =
+          (parse (pcfgOf main forced2 meta2) bs2).events.flatMap toks ∧
+        ∃ (t1' t2' : Tree) (r1' r2' : Node),
+          treeOfWbxml main (f1 + 1) forced1 meta1 bs1 = .ok t1' ∧ t1'.root = some r1' ∧
+          treeOfWbxml main (f2 + 1) forced2 meta2 bs2 = .ok t2' ∧ t2'.root = some r2' ∧
+          t1'.lang = t2'.lang ∧ canon r1' = canon r2' := by
+  obtain ⟨hl, hpl, hnta, hvs, has, hts, han⟩ := rtLangOk_spec lang hlk
+  obtain ⟨d1, hs1, hk1⟩ := rt_preserves_partial cfg t1 bs1 lang r1 hlang1 hroot1 hl hover1 h1 hpn1 hpl hnta hvs has hts han hnd1
+  obtain ⟨d2, hs2, hk2⟩ := rt_preserves_partial cfg t2 bs2 lang r2 hlang2 hroot2 hl hover2 h2 hpn2 hpl hnta hvs has hts han hnd2
+  refine ⟨d1, d2, hs1, hs2, ?_⟩
+  intro main f1 forced1 meta1 f2 forced2 meta2 a1 a2 b1 b2 hv hz1 hz2
+  obtain ⟨r1', e1, _, _, hc1, hv1⟩ := hk1 main f1 forced1 meta1 a1 a2 hv hz1
+  obtain ⟨r2', e2, _, _, hc2, hv2⟩ := hk2 main f2 forced2 meta2 b1 b2 hv hz2
+  have hcc : canon r1' = canon r2' := by rw [hc1, hc2, hN]
+  refine ⟨?_, _, _, r1', r2', e1, rfl, e2, rfl, rfl, hcc⟩
+  rw [hv1, hv2, ← ntoks_canon r1', ← ntoks_canon r2', hcc]
+
+/-- **`rt2_is_rt1_partial`: the second round trip is the first, at tree and event level.** Under the
+    hypotheses of `rt2_tree_partial` (plus attribute values below 2^32 octets): let `t'` be the first
+    round-trip tree, `xml` its printed form, `t''` what `wbxml_tree_from_xml` makes of Expat's
+    reading of `xml` (`ReadsBack`). If the encoder accepts `t''` — output `bs2` — then `bs2` and the
+    first output `bs` denote the same event view, and the tree `wbxml_tree_from_wbxml` builds from
+    `bs2` equals `t'` up to `canon`: converting twice gives the document that converting once gives.
+    `_partial`: (i) the class of trees / languages / generation modes of `rt_preserves_partial` and
+    `ReadsDoc`; (ii) equality of the two WBXML documents OCTET BY OCTET is not claimed and is false
+    as it stands — `rt2_bytes_differ_hollow` (an element whose only child is ignorable white space:
+    written with an empty content the first time, without content the second; the known finding
+    `empty-element-form-not-stable`) and `rt2_bytes_differ_adjacent_text` (two adjacent text nodes,
+    which only API-built trees have: two `STR_I` the first time, one the second). -/
+theorem rt2_is_rt1_partial (cfg : X2WCfg) (t : Tree) (bs : Bytes) (lang : Lang) (r : Node)
+    (hlk : rtLangOk lang = true) (hlang : t.lang = some lang) (hroot : t.root = some r)
+    (hover : treeOver lang t = true) (h : treeToWbxml cfg t = .ok bs)
+    (hpn : plainNode r = true) (hnd : noDataNode r = true)
+    (hsy : isSyncml lang.id = false) (hnul : textsNulFree r = true) :
+    ∃ d : Doc, bs = Spec.ser d ∧
+      ∀ (main : List Lang) (f forced metaCs : Nat),
+        headerLang (pcfgOf main forced metaCs) d.hdr = some lang →
+        (headerCharset (pcfgOf main forced metaCs) d.hdr = 3 ∨ headerCharset (pcfgOf main forced metaCs) d.hdr = 106) →
+        cfg.version < 256 → bs.length < 4294967296 →
+        ∃ (t' : Tree) (r' : Node), treeOfWbxml main (f + 1) forced metaCs bs = .ok t' ∧ t'.root = some r' ∧
+          ∀ (xcfg : W2XCfg) (fuel k : Nat) (xml : Bytes) (env : List (Bytes × ExpatRun)),
+            main.find? (fun x => x.id == lang.id) = some lang →
+            docTypeFinds main lang = true → flagsOk (xcfgOf xcfg lang) (dcfgOf cfg lang) = true →
+            readable (normNode (dcfgOf cfg lang) r) = true →
+            attrsReadable (xcfgOf xcfg lang) (normNode (dcfgOf cfg lang) r) = true →
+            valuesShort (normNode (dcfgOf cfg lang) r) = true →
+            treeToXml xcfg fuel t' = .ok xml → ReadsBack env xml (xcfgOf xcfg lang) t' →
+            ∃ t'' : Tree, treeOfXml main env (k + 1) xml = .ok t'' ∧
+              ∀ bs2 : Bytes, treeToWbxml cfg t'' = .ok bs2 →
+                ∃ d2 : Doc, bs2 = Spec.ser d2 ∧
+                  ∀ (f2 forced2 meta2 : Nat),
+                    headerLang (pcfgOf main forced2 meta2) d2.hdr = some lang →
+                    (headerCharset (pcfgOf main forced2 meta2) d2.hdr = 3 ∨
+                      headerCharset (pcfgOf main forced2 meta2) d2.hdr = 106) →
+                    bs2.length < 4294967296 →
+                    (parse (pcfgOf main forced2 meta2) bs2).events.flatMap toks =
+                      (parse (pcfgOf main forced metaCs) bs).events.flatMap toks ∧
+                    ∃ (t3 : Tree) (r3 : Node), treeOfWbxml main (f2 + 1) forced2 meta2 bs2 = .ok t3 ∧
+                      t3.root = some r3 ∧ t3.lang = t'.lang ∧ canon r3 = canon r' ∧
+                      ∀ (fuel3 : Nat) (xml3 : Bytes), treeToXml xcfg fuel3 t3 = .ok xml3 → xml3 = xml := by
+  obtain ⟨hl, hpl, hnta, hvs, has, hts, han⟩ := rtLangOk_spec lang hlk
+  obtain ⟨d, hs, hk⟩ := rt_preserves_partial cfg t bs lang r hlang hroot hl hover h hpn hpl hnta hvs has hts han hnd
+  refine ⟨d, hs, ?_⟩
+  intro main f forced metaCs a1 a2 hver hz
+  obtain ⟨r', ht', hr', hnf, hcanon, hview⟩ := hk main f forced metaCs a1 a2 hver hz
+  refine ⟨_, r', ht', rfl, ?_⟩
+  intro xcfg fuel k xml env hfind hdt hf hre har hvsh hx hrb
+  have hns : lang.ns = none := by obtain ⟨_, _, _, _, hns, _⟩ := hrb; exact hns
+  have hg : xcfg.gen ≠ 1 := by obtain ⟨_, _, _, _, _, hg, _⟩ := hrb; exact hg
+  have hre' : readable r' = true := by rw [← readable_canon, hcanon]; exact hre
+  have har' : attrsReadable (xcfgOf xcfg lang) r' = true := by rw [← attrsReadable_canon, hcanon]; exact har
+  have hvs' : valuesShort r' = true := by rw [← valuesShort_canon, hcanon]; exact hvsh
+  have helt : isElt r' = true := by rw [hr']; exact isElt_nodeOfElem _ _ _
+  obtain ⟨r'', hx'', hr'', hn⟩ := xml_read_back_partial main lang xcfg (dcfgOf cfg lang) _ r' fuel k xml env rfl hpl hdt
+    hnf helt hre' har' (dcfgOf_lang cfg lang) hsy hf hx hrb
+  refine ⟨_, hx'', ?_⟩
+  intro bs2 h2
+  obtain ⟨hov, hpn2, hnd2⟩ := good_readNode lang (xcfgOf xcfg lang) r' hre' hvs'
+  rw [← hr''] at hov hpn2 hnd2
+  have helt2 : isElt r'' = true := by rw [hr'']; exact isElt_readNode lang _ r' hre' helt
+  have hidem : normNode (dcfgOf cfg lang) r'' = normNode (dcfgOf cfg lang) r := by
+    rw [hn, ← normNode_canon, hcanon]
+    exact normNode_idem _ (by rw [dcfgOf_lang]; exact hsy) r hnul
+  obtain ⟨d2, hs2, hk2⟩ := rt_preserves_partial cfg { lang := some lang, origCharset := 0, root := some r'' } bs2 lang r''
+    rfl rfl hl (by simp only [treeOver, helt2, hov, Bool.and_self]) h2 hpn2 hpl hnta hvs has hts han hnd2
+  refine ⟨d2, hs2, ?_⟩
+  intro f2 forced2 meta2 b1 b2 hz2
+  obtain ⟨r3, e3, hr3, hnf3, hc3, hv3⟩ := hk2 main f2 forced2 meta2 b1 b2 hver hz2
+  have hcc : canon r3 = canon r' := by rw [hc3, hidem, hcanon]
+  refine ⟨?_, _, r3, e3, rfl, rfl, hcc, ?_⟩
+  · rw [hv3, hview, ← ntoks_canon r3, ← ntoks_canon r', hcc]
+  · intro fuel3 xml3 hx3
+    exact printed_congr xcfg lang _ _ r3 r' fuel3 fuel xml3 xml hfind hfind rfl rfl hg hns hsy
+      (plain_of_nf r3 hnf3) (plain_of_nf r' hnf) (by rw [hr3]; exact noBinary_rootOfDoc _ _ _ hpl)
+      (by rw [hr']; exact noBinary_rootOfDoc _ _ _ hpl) hcc hx3 hx
 
 /-! ## Non-vacuity -/
 
@@ -334,6 +482,11 @@ example : headerLang (pcfgOf Gen.main 0 0) Props.C04.exSyncml.hdr = some Gen.lan
     element is called `Data`. -/
 example : (treeOfEventsSpec Gen.main Props.C04.exCfg Props.C04.exSyncml).isSome = true ∧
     noDataEvents (Spec.events Props.C04.exCfg Props.C04.exSyncml) = true := by decide +kernel
+
+def rootOr (t : Tree) : Node :=
+  match t.root with
+  | some r => r
+  | none => .text []
 
 /-- `<wml><card id="a"> Hi <!-- two text nodes -->there<b>x</b>  </card></wml>` as a WML 1.3 tree
     with literal names (the encoder finds the tokens): white space to trim, two adjacent text
@@ -376,6 +529,10 @@ example : (match treeToWbxml {} exWml with
 /-- Hypotheses of `norm_idempotent` for the example. -/
 example : isSyncml (dcfgOf {} Gen.lang3).lang.id = false ∧ textsNulFree exWmlRoot = true := by decide +kernel
 
+/-- Hypotheses of `norm_idempotent_merged` for C06's SyncML 1.2 example tree. -/
+example : textsNulFree (rootOr C06.exTree) = true ∧ mergedNode (rootOr C06.exTree) = true ∧
+    isSyncml Gen.lang15.id = true := by decide +kernel
+
 /-- `norm_idempotent` needs NUL-free text: `"a \0b"` is cut to `"a "` by the first pass (C string)
     and trimmed to `"a"` by the second. -/
 theorem norm_not_idempotent_nul :
@@ -399,28 +556,149 @@ theorem norm_not_idempotent_syncml :
   revert this
   decide +kernel
 
+/-! ### Second trip: non-vacuity and witnesses -/
+
+/-- `<wml><card id="a"> Hi there<b>x</b>  </card></wml>`: as `exWml`, without adjacent text nodes
+    (what `wbxml_tree_from_xml` builds from an XML text). -/
+def exMerged : Tree where
+  lang := some Gen.lang3
+  origCharset := 106
+  root := some (.elt (.literal b!"wml") [] [
+    .elt (.literal b!"card") [{ name := .literal b!"id", value := b!"a" }] [
+      .text b!" Hi there", .elt (.literal b!"b") [] [.text b!"x"], .text b!"  "]])
+
+/-- `<wml><card> </card></wml>`: an element whose only child is ignorable white space. -/
+def exHollow : Tree where
+  lang := some Gen.lang3
+  origCharset := 106
+  root := some (.elt (.literal b!"wml") [] [.elt (.literal b!"card") [] [.text b!" "]])
+
+def exXcfg : W2XCfg := { main := Gen.main, gen := 0 }
+
+/-- Both trips under the library's table and default options, Expat's run for the printed text
+    being the canonical reading (`xmlEventsOf`, cf. `readsBack_canonical`): the first WBXML
+    document, the printed XML, the second WBXML document, the XML printed from it. -/
+def twoTrips (t : Tree) : Option (Bytes × Bytes × Bytes × Bytes) :=
+  match treeToWbxml {} t with
+  | .ok w1 =>
+    match treeOfWbxml Gen.main (w1.length + 1) 0 0 w1 with
+    | .ok t' =>
+      match treeToXml exXcfg t'.xmlFuel t' with
+      | .ok xml =>
+        match treeOfXml Gen.main [(xml, { ok := true, events := xmlEventsOf (xcfgOf exXcfg Gen.lang3) t' })] 3 xml with
+        | .ok t'' =>
+          match treeToWbxml {} t'' with
+          | .ok w2 =>
+            (match wbxml2xml exXcfg w2 with
+             | .ok xml3 => some (w1, xml, w2, xml3)
+             | .error _ => none)
+          | .error _ => none
+        | _ => none
+      | .error _ => none
+    | .error _ => none
+  | .error _ => none
+
+/-- All hypotheses of `rt2_tree_partial` / `rt2_is_rt1_partial` that concern the source tree, the
+    language and the options hold for `exMerged` (WML 1.3, compact XML, default encoder options). -/
+example : rtLangOk Gen.lang3 = true ∧ treeOver Gen.lang3 exMerged = true ∧ plainNode (rootOr exMerged) = true ∧
+    noDataNode (rootOr exMerged) = true ∧ isSyncml Gen.lang3.id = false ∧ textsNulFree (rootOr exMerged) = true ∧
+    docTypeFinds Gen.main Gen.lang3 = true ∧ flagsOk (xcfgOf exXcfg Gen.lang3) (dcfgOf {} Gen.lang3) = true ∧
+    readable (normNode (dcfgOf {} Gen.lang3) (rootOr exMerged)) = true ∧
+    attrsReadable (xcfgOf exXcfg Gen.lang3) (normNode (dcfgOf {} Gen.lang3) (rootOr exMerged)) = true ∧
+    valuesShort (normNode (dcfgOf {} Gen.lang3) (rootOr exMerged)) = true := by decide +kernel
+
+/-- `ReadsBack` is satisfiable: for every plain tree of a language without namespace table, in a
+    generation mode other than indent, by the run that reports `xmlEventsOf`. -/
+example (xml : Bytes) (c : XCfg) (t : Tree) (r : Node) (hr : t.root = some r) (hp : plainNode r = true)
+    (hns : c.lang.ns = none) (hg : c.gen ≠ 1) :
+    ReadsBack [(xml, { ok := true, events := xmlEventsOf c t })] xml c t :=
+  readsBack_canonical xml c t r hr hp hns hg
+
+/-- The languages of `Gen.main` in the scope of the second-trip theorems: 14 of 29 (WML 1.0–1.3,
+    WTA, WTA-WML, CHANNEL 1.1/1.2, SL, CO, PROV, MetInf 1.1/1.2, ConML). The printed document type
+    selects its language again for all 29 (`docTypeFinds`). -/
+example : (Gen.main.filter (fun l => rtLangOk l && l.ns.isNone && !isSyncml l.id && docTypeFinds Gen.main l)).map (·.id) =
+    [1101, 1102, 1103, 1104, 1201, 1202, 1203, 1204, 1401, 1501, 1601, 2203, 2103, 2501] ∧
+    Gen.main.all (docTypeFinds Gen.main) = true := by decide +kernel
+
+/-- The printed text of the first round-trip tree of `exMerged`, and its rendering. -/
+example : (match treeToWbxml {} exMerged with
+    | .ok w1 => (match treeOfWbxml Gen.main (w1.length + 1) 0 0 w1 with
+      | .ok t' => (match treeToXml exXcfg t'.xmlFuel t' with
+        | .ok xml => xml == xmlHeader Gen.lang3 0 ++ renderNode (xcfgOf exXcfg Gen.lang3) (rootOr t') &&
+            noBinaryNames (rootOr t') && plainNode (rootOr t') &&
+            renderNode (xcfgOf exXcfg Gen.lang3) (rootOr t') == b!"<wml><card id=\"a\">Hi there<b>x</b></card></wml>"
+        | .error _ => false)
+      | .error _ => false)
+    | .error _ => false) = true := by decide +kernel
+
+/-- For `exMerged` the second WBXML document is the first, octet by octet, and so is the XML. -/
+example : (twoTrips exMerged).map (fun p => p.1 == p.2.2.1 && p.2.1 == p.2.2.2) = some true := by decide +kernel
+
+example : Gen.main.find? (fun x => x.id == Gen.lang3.id) = some Gen.lang3 := by decide +kernel
+
+/-- **Octet-by-octet equality of the two WBXML documents fails** for an element whose only child is
+    ignorable white space: the first encoding writes `card` with the content flag and an `END`
+    (`67 01`), the round-trip tree has no child left, the second encoding writes `27`
+    (known finding `empty-element-form-not-stable`). -/
+theorem rt2_bytes_differ_hollow :
+    (twoTrips exHollow).map (fun p => (hexOfBytes p.1, hexOfBytes p.2.2.1, p.2.1 == p.2.2.2)) =
+      some ("030a6a007f670101", "030a6a007f2701", true) := by decide +kernel
+
+/-- … and for two adjacent text nodes (API-built trees only): `STR_I "Hi" STR_I "there"` the first
+    time, `STR_I "Hithere"` the second. -/
+theorem rt2_bytes_differ_adjacent_text :
+    (twoTrips exWml).map (fun p => (p.1 == p.2.2.1, p.2.1 == p.2.2.2)) = some (false, true) := by decide +kernel
+
 /-!
-  ## `rt_preserves` — what is missing (kept visible, not claimed)
+  ## What is still missing (kept visible, not claimed)
 
   Full strength (DESIGN §5 C03):
 
       rt_preserves : accepted cfg t → treeOfWbxml main fuel 0 0 (treeToWbxml cfg t) = .ok (norm cfg t)
+      rt_idem      : RT (RT x) = RT x   (XML text to XML text)
 
-  With `rt_is_spec_tree_partial` the left side is `treeOfEvents … (Spec.events pcfg d)` for the `d`
-  the encoder wrote, and `rt_events_view_partial` says what those events are for plain trees of plain
-  languages (value splitting keeps the concatenation, names and value prefixes are resolved to the
-  rows the encoder used, `Lemmas.EncW.encNode_seg` / `ViewN`). Still to be proved:
-    1. the builder (`buildStep`, `addKid`) over a balanced event list yields a tree whose view is the
-       events' view — including its SyncML special cases (`syncmlDataType`: character data of a
-       `Data` element may become a CDATA node or, when `Type` says `+wbxml` and the text happens to
-       parse, an embedded tree);
-    2. the "earlier alias" normalisation for ActiveSync (`tagSemOk` fails there: two names share a
-       token; C08's `tagDecEnc` gives the first alias);
-    3. typed content (`opqsDoc d ≠ []`: Wireless Village, DRMREL, SI, EMN, OTA, `NextNonce`): C12's
+  Proved above: `rt_preserves_partial` (`canon r' = normNode c r`, `r'` explicit, in normal form),
+  `norm_idempotent`, `rt2_tree_partial`, `rt2_is_rt1_partial`. The former item 1 of this list (the
+  builder over balanced events) is done for every item kind (`build_reconstructs`), under
+  `noDataEvents`. Still to be proved, each with the lemma that is missing:
+
+    1. EXACT table rows instead of `canon`. `rt_preserves_partial` identifies the round-trip tree
+       up to the representation of names. Element names: needs `tagNamesUniq lang` (a table fact:
+       no two rows of the tag table share a name; then the reader's row
+       `tagRow ctx page token` IS the row `encTag` finds for the name) and, for `TagOk.lit`, the
+       converse of `foundOf` (`encTag … = none → no row has the name`). Attribute names: needs a
+       characterisation of the start token `attrStartW` / `encAttrGo` choose (longest value
+       prefix) as a function of name and value — `AStartOk` only says "some row with that name".
+    2. Elements called `Data` (`syncmlDataType`): character data below them may become a CDATA
+       node or, when `Type` says `+wbxml` and the text happens to parse, an embedded tree. Needs
+       `run_items` with a `syncmlDataType`-indexed case split and the XML-side counterpart.
+    3. The "earlier alias" normalisation for ActiveSync (`tagSemOk` fails there: two names share a
+       token; C08's `tagDecEnc` gives the first alias).
+    4. Typed content (`opqsDoc d ≠ []`: Wireless Village, DRMREL, SI, EMN, OTA, `NextNonce`): C12's
        round-trip laws as side conditions per opaque, the known findings listed at
-       `C06.enc_is_ser_wf_partial` as exclusions;
-    4. CDATA sections and embedded documents in the source tree (written as OPAQUE; the reader's
+       `C06.enc_is_ser_wf_partial` as exclusions.
+    5. CDATA sections and embedded documents in the source tree (written as OPAQUE; the reader's
        view needs the nested document's own `denotes_source`).
+    6. Second trip: (a) languages with a namespace table (SyncML family, ActiveSync): `Reads` needs
+       the `ns|name` reporting of a namespace-aware reader and `xmlElt`'s page look-up;
+       (b) indented output: `Reads` needs the white-space `chars` events between elements and the
+       proof that `normText` drops / trims them (the XML TEXT of the second trip equal to the first,
+       `rt_idem` proper, IS proved within the scope: last clause of `rt2_is_rt1_partial`);
+       (c) octet-by-octet equality of the two WBXML documents is FALSE as it stands
+       (`rt2_bytes_differ_hollow`, `rt2_bytes_differ_adjacent_text`); for trees without such
+       elements / text nodes it needs an encoder congruence
+       (`normNode c a = normNode c b → encNodeG c p e a st = encNodeG c p e b st` up to `textNo`),
+       including the string-table pre-pass.
+    7. `norm_idempotent` without hypothesis is false (`norm_not_idempotent_nul`,
+       `norm_not_idempotent_syncml`); `norm_idempotent_merged` covers every language for trees
+       without adjacent text nodes. Nothing missing here.
+
+  New observation (a defect candidate, not modelled away): a TAB or LF in an attribute value
+  (possible in a source document only as `&#9;` / `&#10;`) is written literally by
+  `xml_encode_attr` in compact and indented mode; an XML reader normalises it to a space
+  (XML 1.0 §3.3.3), so the second round trip differs from the first (`attrNormalize`,
+  `attrReadable`). Same shape as the carriage-return defect fixed by 51380fd.
 -/
 
 end Wbxml.Props.C03
